@@ -12,7 +12,7 @@ _SERVER_TRUSTED = (
     'layer\'s vocabulary because the owning units\' environments cannot be loaded next to each other: TSIG reading side '
     '(prelude/server_tsig_standin.rs: ReadTsigRr::try_from / accessors / verify_request, Algorithm::from_name, PreparedTsigRr::new_from_read, '
     'algorithm-name facts) - proved in units tsig / tsig_rdata; Rrl::process_response (prelude/server_rrl.rs: response untouched, or records '
-    'dropped + TC, or not sent) - proved in unit rrl; answer / answer_any (units/frag/server_answer_assumed.vrs: frame only) - proved in unit '
+    'dropped + TC, or not sent) - proved in unit rrl; answer / answer_any: the contract text proved in unit query_answer (units/frag/query_answer_contract.vrs, mode=assume), precondition discharged in handle_query; Catalog::lemma_cview_keys (entries filed under their own name) - proved in unit catalog - proved in unit '
     'query_answer; Catalog::lookup = longest suffix (units/frag/server_db.vrs) - proved in unit catalog. std stand-ins (prelude/server_std.rs): '
     'RwLock read with a lock invariant (poisoning ignored), Arc clone/as_ref, SystemTime::now() within the 48-bit TSIG time range, '
     'TimeSigned::try_from(SystemTime), IpAddr opaque, TsigKeyMap as a partial function of the key name, Option::filter, Box<[T]>::from(&[T]); '
@@ -65,9 +65,7 @@ PROPS_PART = {
                      what='NOTIMP for opcodes other than QUERY and QTYPE IXFR/AXFR/MAILB/MAILA / QCLASS ANY regardless of the catalog; REFUSED / SERVFAIL / answered-from-the-zone by the longest-suffix entry of the QCLASS (reference list model; NOERROR vs NXDOMAIN tells which loaded zone answered); AA clear and no records in these error responses')],
         kani=[],
         cex={},
-        unverified=['answer / answer_any (what a Loaded zone answers): C05, unit query_answer; its precondition "the zone found by the catalog lookup '
-                    'is at or above the QNAME" is not discharged by server_query_dispatch (needs the catalog invariant view_keys_ok on the stand-in)',
-                    'the oracle longest_suffix / labels is restated in specs/server.rs (textually the same as specs/catalog.rs, prelude/name_labels.rs)'],
+        unverified=['answer / answer_any (what a Loaded zone answers): C05, unit query_answer (its precondition is now proved in handle_query from the catalog contract)'],
         assumptions=['every catalog stored in the Server satisfies its implementation invariant (lock invariant of RwLock<Arc<C>>)'],
     ),
     'C08': dict(
